@@ -859,7 +859,7 @@ Proof.
   destruct (beq (upper (trim nm)) (bs "WATCH")).
   { destruct (len (FBulk nm :: rest) <? 2); [eapply Same; exact H|].
     destruct (c_intx cn) eqn:Ei; [eapply Same; exact H|].
-    destruct (watch_loop_partial (c_db cn) (get_trk s (c_db cn)) rest (c_watched cn)) as [[t' w'] okb].
+    destruct (watch_loop_partial now (c_db cn) (get_db s (c_db cn)) (get_trk s (c_db cn)) rest (c_watched cn)) as [[[d' t'] w'] okb].
     inversion H; subst. eapply dom_same_set_conn with (s := s); eauto. }
   destruct (beq (upper (trim nm)) (bs "UNWATCH")).
   { inversion H; subst. eapply dom_same_set_conn with (s := s); [apply unwatch_all_conns|eauto]. }
